@@ -33,10 +33,12 @@ def machine_tokens(workdir, home):
 
 def gen_case(rng, i):
     mix = rng.random() < 0.35
-    spec_tokens = [USER, 'HOSTTOKEN', 'CWDTOKEN', 'HOMETOKEN/.toolrc', 'HOMETOKEN'] + GC.today_tokens() if mix else []
+    spec_tokens = [USER, 'HOSTTOKEN', 'IPTOKEN', 'CWDTOKEN', 'HOMETOKEN/.toolrc', 'HOMETOKEN'] + GC.today_tokens() if mix else []
     spec = GC.gen_command(rng, spec_tokens, i)
     flags = []
     it = rng.choice([1, 2, 2, 3])
+    if any(f.get('repeat') for f in spec['files']) and rng.random() < 0.6:
+        it = 1               # (with one run there is no second copy to compare, so classification rests on the file alone)
     flags += ['--iterations', str(it)] if it != 2 or rng.random() < 0.3 else []
     if rng.random() < 0.15:
         flags.append('--no-stdout')
@@ -45,7 +47,7 @@ def gen_case(rng, i):
     if spec['status'] != 0 or rng.random() < 0.2:
         flags.append('--non-zero-exit')
     script = rng.choice(['test_gen.py', 'test_gen.py', 'gen', 'gen.py', 'ABS', 'OMIT'])
-    names = [f['name'] for f in spec['files']]
+    names = [f['name'] for f in spec['files'] if not f['name'].startswith(GC.TMP_PREFIX)]
     refmode = rng.choice(['explicit', 'dot', 'none', 'glob']) if names else rng.choice(['none', 'dot'])
     if refmode == 'glob' and not all(n.startswith('out') and '/' not in n for n in names):
         refmode = 'explicit'
@@ -53,7 +55,12 @@ def gen_case(rng, i):
         refmode = 'explicit'             # files outside the working directory are only checked when named
     if script == 'OMIT':
         refmode = 'none'
+    # the command line itself may hold quotes, backslashes and non-ASCII text (extra parameters the script ignores)
+    cmd_tail = ''
+    if script != 'OMIT' and rng.random() < 0.25:
+        cmd_tail = rng.choice([" 'x\"\"\"y'", ' "it\'s"', " back\\\\slash", " 'bs\\x'", " 'ends\\'", ' ünï', ' # note \"\"\"', " '%s %d'", ' a  b'])
     case = {'spec': spec, 'flags': flags, 'iterations': it, 'script': script, 'refmode': refmode, 'decoys': rng.random() < 0.7,
+            'cmd_tail': cmd_tail,
             'previous_generation': rng.random() < 0.2, 'flags_first': rng.random() < 0.5, 'old_decoys': rng.random() < 0.6}
     if rng.random() < 0.2:
         # the same request put through gentest's question-and-answer wizard (`tdda gentest` with no parameters),
@@ -75,8 +82,9 @@ def bare_run(workdir, env, mut=None, names=None):
     p = subprocess.run('sh cmd.sh', shell=True, cwd=workdir, env=e, stdout=subprocess.PIPE, stderr=subprocess.PIPE, timeout=60)
     files = {}
     for fn in (names or []):
-        if os.path.isfile(os.path.join(workdir, fn)):
-            files[fn] = open(os.path.join(workdir, fn), 'rb').read()
+        rp = GC.real_path(fn, workdir, e.get('TMPDIR', '/tmp'))
+        if os.path.isfile(rp):
+            files[fn] = open(rp, 'rb').read()
     return (p.returncode, p.stdout, p.stderr, files)
 
 
@@ -98,12 +106,15 @@ def generate(ctx, case, tag='g'):
     toks = machine_tokens(workdir, home)
     # late-bind the host/cwd placeholders the generator could not know
     def fix(l):
-        return l.replace('HOSTTOKEN', toks['host']).replace('CWDTOKEN', workdir).replace('HOMETOKEN', home)
+        return l.replace('HOSTTOKEN', toks['host']).replace('IPTOKEN', toks.get('ip') or '10.1.2.3').replace('CWDTOKEN', workdir).replace('HOMETOKEN', home)
     for k in ('stdout', 'stderr'):
         spec[k] = [fix(l) for l in spec[k]]
     for f in spec['files']:
         if f['kind'] == 'text':
             f['lines'] = [fix(l) for l in f['lines']]
+    if any(workdir in l for k in ('stdout', 'stderr') for l in spec[k]) or \
+            any(workdir in l for f in spec['files'] if f['kind'] == 'text' for l in f['lines']):
+        spec['machine'] = {'cwd': workdir}        # (lets a later change of behaviour mention the same machine-specific text)
     with open(os.path.join(workdir, 'cmd.sh'), 'w') as f:
         f.write(GC.render(spec))
     if case['decoys']:
@@ -139,9 +150,10 @@ def generate(ctx, case, tag='g'):
         sarg = None
     else:
         sarg = sname
-    names = [f['name'] for f in spec['files']]
+    names = [f['name'] for f in spec['files'] if not f['name'].startswith(GC.TMP_PREFIX)]     # (gentest watches its own $TMPDIR itself)
     refs = {'explicit': names, 'dot': ['.'], 'none': [], 'glob': ['out*']}[case['refmode']]
-    pos = ['sh cmd.sh'] + ([sarg] + refs if sarg else [])
+    command = 'sh cmd.sh' + case.get('cmd_tail', '')
+    pos = [command] + ([sarg] + refs if sarg else [])
     argv = ['gentest'] + (case['flags'] + pos if case['flags_first'] else pos + case['flags'])
     g.argv = argv
     g.stdin = None
@@ -149,7 +161,7 @@ def generate(ctx, case, tag='g'):
     if wz:
         yes, no = wz['spell_yes'], wz['spell_no']
         fl = case['flags']
-        answers = ['sh cmd.sh', sarg or '', yes if case['refmode'] == 'dot' else no, yes if wz['tmpdir_tracking'] else no]
+        answers = [command, sarg or '', yes if case['refmode'] == 'dot' else no, yes if wz['tmpdir_tracking'] else no]
         answers += [r for r in refs if r != '.'] + ['']
         answers += [no if '--no-stdout' in fl else yes, no if '--no-stderr' in fl else yes, no if '--non-zero-exit' in fl else yes,
                     yes, str(case['iterations']) if '--iterations' in fl or case['iterations'] != 2 else '']
